@@ -5,6 +5,7 @@ import (
 	"encoding/binary"
 	"fmt"
 	"math"
+	"math/rand/v2"
 	"unsafe"
 
 	"github.com/philpearl/avro"
@@ -203,7 +204,41 @@ func c17checkVarint(c *core.Ctx, data []byte) {
 	} else {
 		c.Count("varint.rejected", 1)
 	}
+	// the skip path of every integer width, with the candidate followed by 0, 16 and 24 bytes of further
+	// data (a reader may look ahead; what it accepts and consumes must not depend on what follows)
+	for _, pad := range c17pads {
+		in := append(append(c17padBuf[:0], data...), pad...)
+		rv, rn, _, rerr := refavro.ReadLong(in)
+		_ = rv
+		for k, codec := range c17skippers {
+			st.rb.Reset(in)
+			serr := codec.Skip(st.rb)
+			used := len(in) - st.rb.Len()
+			c.Count("varint.skip-checks", 1)
+			if (serr != nil) != (rerr != nil) {
+				c.Violate("varint-acceptance", fmt.Sprintf("candidate varint %x followed by %d more bytes: %s.Skip err=%v, specification rule err=%v", data, len(pad), c17skipperNames[k], serr, rerr), map[string]any{"hex": fmt.Sprintf("%x", in)})
+				return
+			}
+			if serr == nil && used != rn {
+				c.Violate("varint-value", fmt.Sprintf("candidate varint %x followed by %d more bytes: %s.Skip consumed %d bytes, the varint has %d", data, len(pad), c17skipperNames[k], used, rn), map[string]any{"hex": fmt.Sprintf("%x", in)})
+				return
+			}
+		}
+		st.rb.Reset(in)
+		v2, err2 := st.rb.Varint()
+		if (err2 != nil) != (rerr != nil) || (err2 == nil && (v2 != rv || len(in)-st.rb.Len() != rn)) {
+			c.Violate("varint-acceptance", fmt.Sprintf("candidate varint %x followed by %d more bytes: library value %d err=%v, specification %d err=%v", data, len(pad), v2, err2, rv, rerr), map[string]any{"hex": fmt.Sprintf("%x", in)})
+			return
+		}
+	}
 }
+
+var (
+	c17pads         = [][]byte{bytes.Repeat([]byte{0x00}, 16), bytes.Repeat([]byte{0x81}, 24)}
+	c17padBuf       = make([]byte, 0, 1024)
+	c17skippers     = []avro.Codec{avro.Int64Codec{}, avro.Int32Codec{}, avro.Int16Codec{}}
+	c17skipperNames = []string{"Int64Codec", "Int32Codec", "Int16Codec"}
+)
 
 // c17inContext: every place where the decoders read a varint (lengths, counts, block sizes, selectors) must
 // report a malformed varint (overflowing or longer than ten bytes) as an error, like the integer codecs do.
@@ -223,6 +258,14 @@ func c17inContext(c *core.Ctx) int {
 		append(bytes.Repeat([]byte{0x80}, 37), 0x01),
 		append(bytes.Repeat([]byte{0xff}, 40), 0x00),
 		append(bytes.Repeat([]byte{0x81}, 256), 0x01),
+	}
+	for l := 11; l <= 20; l++ {
+		bad = append(bad, append(bytes.Repeat([]byte{0x80}, l-1), 0x01), append(bytes.Repeat([]byte{0xff}, l-1), 0x7f))
+	}
+	bad = append(bad, []byte{0x80, 0x80, 0x80, 0x80, 0x80, 0x80, 0x80, 0x80, 0x80, 0x7f}, []byte{0x81, 0x82, 0x83, 0x84, 0x85, 0x86, 0x87, 0x88, 0x89, 0x03})
+	var bad2 [][]byte // each malformed varint twice: in a short input and with plenty of data after the record
+	for _, b := range bad {
+		bad2 = append(bad2, b, b)
 	}
 	L := func(v int64) []byte { return refavro.AppendLong(nil, v) }
 	cat := func(parts ...[]byte) []byte {
@@ -263,8 +306,12 @@ func c17inContext(c *core.Ctx) int {
 				c.Violate("harness", sl.name+": "+err.Error(), nil)
 				continue
 			}
-			for _, v := range bad {
+			for vi, v0 := range bad2 {
+				v := v0
 				in := sl.build(v)
+				if vi%2 == 1 {
+					in = append(in, bytes.Repeat([]byte{0x00}, 32)...) // plenty of data after the record
+				}
 				for pass := 0; pass < 2; pass++ {
 					rb.Reset(in)
 					var rerr error
@@ -293,6 +340,145 @@ func c17inContext(c *core.Ctx) int {
 		}
 	}
 	return n
+}
+
+// c17widthPositions: the width rule in every position a narrow integer can occupy (record field, array
+// item, map value, behind pointers, nested), for int16 and int32 and their defined types.
+type c17n16 int16
+type c17n32 int32
+type c17w16 struct {
+	F  int16            `json:"f"`
+	A  []int16          `json:"a"`
+	M  map[string]int16 `json:"m"`
+	P  *int16           `json:"p"`
+	AA [][]int16        `json:"aa"`
+	AP []*int16         `json:"ap"`
+	N  c17n16           `json:"n"`
+	AN []c17n16         `json:"an"`
+	G  int16            `json:"g"`
+}
+type c17w32 struct {
+	F  int32            `json:"f"`
+	A  []int32          `json:"a"`
+	M  map[string]int32 `json:"m"`
+	P  *int32           `json:"p"`
+	AA [][]int32        `json:"aa"`
+	AP []*int32         `json:"ap"`
+	N  c17n32           `json:"n"`
+	AN []c17n32         `json:"an"`
+	G  int32            `json:"g"`
+}
+
+const c17wSchema = `{"type":"record","name":"w","fields":[{"name":"f","type":"long"},{"name":"a","type":{"type":"array","items":"long"}},
+{"name":"m","type":{"type":"map","values":"long"}},{"name":"p","type":["null","long"]},{"name":"aa","type":{"type":"array","items":{"type":"array","items":"long"}}},
+{"name":"ap","type":{"type":"array","items":["null","long"]}},{"name":"n","type":"long"},{"name":"an","type":{"type":"array","items":"long"}},{"name":"g","type":"long"}]}`
+
+func c17widthPositions(c *core.Ctx, r *rand.Rand) int {
+	s, err := avro.SchemaFromString(c17wSchema)
+	if err != nil {
+		c.Violate("harness", err.Error(), nil)
+		return 0
+	}
+	L := func(v int64) []byte { return refavro.AppendLong(nil, v) }
+	// record bytes with v at position pos and 1 everywhere else
+	build := func(pos int, v int64) []byte {
+		val := func(k int) []byte {
+			if k == pos {
+				return L(v)
+			}
+			return L(1)
+		}
+		var out []byte
+		out = append(out, val(0)...)                                                    // f
+		out = append(append(append(out, L(2)...), append(L(1), val(1)...)...), L(0)...) // a: [1, v]
+		out = append(out, L(1)...)
+		out = append(append(append(out, L(1)...), 'k'), val(2)...) // m: {k: v}
+		out = append(out, L(0)...)
+		out = append(append(out, L(1)...), val(3)...) // p
+		out = append(out, L(1)...)                    // aa: [[1, v]]
+		out = append(append(append(out, L(2)...), append(L(1), val(4)...)...), L(0)...)
+		out = append(out, L(0)...)
+		out = append(out, L(2)...) // ap: [*1, *v]
+		out = append(append(append(out, L(1)...), L(1)...), append(L(1), val(5)...)...)
+		out = append(out, L(0)...)
+		out = append(out, val(6)...)                                                    // n
+		out = append(append(append(out, L(2)...), append(L(1), val(7)...)...), L(0)...) // an
+		out = append(out, L(7)...)                                                      // g (guard: must still decode as 7)
+		return out
+	}
+	names := []string{"record field", "array item", "map value", "pointer", "nested array item", "array of pointers item", "defined-type field", "array of defined type item"}
+	n := 0
+	rb := avro.NewReadBuf(nil)
+	vals := varintBoundaries()
+	for k := 0; k < 3000; k++ {
+		vals = append(vals, int64(r.Uint64())>>uint(r.IntN(56)))
+	}
+	for v := int64(-(1 << 16)) - 3; v <= 1<<16+3; v += 1 + int64(r.IntN(3)) {
+		vals = append(vals, v)
+	}
+	c16, err16 := s.Codec(c17w16{})
+	c32, err32 := s.Codec(c17w32{})
+	if err16 != nil || err32 != nil {
+		c.Violate("harness", fmt.Sprintf("width positions: %v %v", err16, err32), nil)
+		return 0
+	}
+	for _, v := range vals {
+		for pos := range names {
+			in := build(pos, v)
+			for w := 0; w < 2; w++ {
+				var got, g int64
+				var rerr error
+				lo, hi := int64(math.MinInt16), int64(math.MaxInt16)
+				rb.Reset(in)
+				if w == 0 {
+					var t c17w16
+					rerr = c16.Read(rb, unsafe.Pointer(&t))
+					if rerr == nil {
+						got = []int64{int64(t.F), int64(last(t.A)), int64(t.M["k"]), int64(deref(t.P)), int64(last(last(t.AA))), int64(deref(last(t.AP))), int64(t.N), int64(last(t.AN))}[pos]
+						g = int64(t.G)
+					}
+				} else {
+					lo, hi = math.MinInt32, math.MaxInt32
+					var t c17w32
+					rerr = c32.Read(rb, unsafe.Pointer(&t))
+					if rerr == nil {
+						got = []int64{int64(t.F), int64(last(t.A)), int64(t.M["k"]), int64(deref(t.P)), int64(last(last(t.AA))), int64(deref(last(t.AP))), int64(t.N), int64(last(t.AN))}[pos]
+						g = int64(t.G)
+					}
+				}
+				rb.ExtractResourceBank().Close()
+				n++
+				in_ := v >= lo && v <= hi
+				width := []string{"int16", "int32"}[w]
+				switch {
+				case in_ && (rerr != nil || got != v || g != 7):
+					c.Violate("width", fmt.Sprintf("%s as %s: in-range value %d decoded as %d (guard %d) err=%v", width, names[pos], v, got, g, rerr), map[string]any{"hex": fmt.Sprintf("%x", in)})
+					return n
+				case !in_ && rerr == nil:
+					c.Violate("width", fmt.Sprintf("%s as %s: out-of-range value %d accepted and stored as %d", width, names[pos], v, got), map[string]any{"hex": fmt.Sprintf("%x", in)})
+					return n
+				}
+			}
+		}
+	}
+	c.Count("width.position-checks", int64(n))
+	return n
+}
+
+func last[T any](s []T) T {
+	var z T
+	if len(s) == 0 {
+		return z
+	}
+	return s[len(s)-1]
+}
+
+func deref[T any](p *T) T {
+	var z T
+	if p == nil {
+		return z
+	}
+	return *p
 }
 
 func runC17(c *core.Ctx, i int) {
@@ -512,6 +698,7 @@ func runC17(c *core.Ctx, i int) {
 			c17checkWidth[int16](c, avro.Int16Codec{}, v, math.MinInt16, math.MaxInt16, "Int16Codec")
 			n += 2
 		}
+		n += int64(c17widthPositions(c, r))
 		c.Count("width.checks", n)
 		c.Shape("width")
 	}
